@@ -7,6 +7,7 @@ import (
 	"go/token"
 	"go/types"
 	"strings"
+	"time"
 
 	"golang.org/x/tools/go/ssa"
 )
@@ -402,19 +403,22 @@ func (fr *frame) appendCore(base SliceV, et types.Type, addN *Term, maxAdd int, 
 	if maxAdd == 0 {
 		return base
 	}
-	var res Value
+	var out SliceV
+	var grows []growAlt
+	if os.Getenv("VERIF_DEBUG_APPENDN") != "" {
+		fmt.Printf("APPENDN %s alts=%d maxAdd=%d terms=%d\n", fr.e.posStr(pos, nil), len(base.alts), maxAdd, len(termTab))
+	}
 	for _, al := range base.alts {
 		ag := prune(And(g, al.g))
 		if ag == False {
 			continue
 		}
 		newLen := BinBV("bvadd", al.ln, addN)
-		var r Value
 		fits := Cmp("bvule", newLen, al.cap)
 		if al.obj == nil {
 			fits = Eq(addN, BV(IntW, 0))
 		}
-		var inPlace, grown Value
+		var inPlace Value
 		if fr.e.shadowLog != nil && os.Getenv("VERIF_DEBUG_APPEND") != "" && strings.Contains(fr.e.posStr(pos, nil), os.Getenv("VERIF_DEBUG_APPEND")) {
 			n := -1
 			if al.obj != nil {
@@ -447,57 +451,102 @@ func (fr *frame) appendCore(base SliceV, et types.Type, addN *Term, maxAdd int, 
 			na.g = True
 			inPlace = SliceV{alts: []SliceAlt{na}}
 		}
-		if prune(And(ag, Not(fits))) != False {
-			oldMax := 0
-			if al.obj != nil {
-				oldMax = fr.lenBoundAlt(al)
-			}
-			nc := oldMax + maxAdd
-			if nc < 2*oldMax {
-				nc = 2 * oldMax
-			}
-			if nc < 4 {
-				nc = 4
-			}
-			obj := fr.newArray(et, nc)
-			arr := obj.val.(ArrayV)
-			for j := 0; j < oldMax && !isAbstract(al.obj); j++ {
-				v := fr.readPath(al.obj.val, []PathElem{{idx: BinBV("bvadd", al.off, BV(IntW, uint64(j)))}}, False, pos)
-				if v != nil {
-					arr.e[j] = v
+		if prune(And(ag, Not(fits))) != False && fr.growFeasible(al, And(ag, Not(fits))) {
+			// every alternative that has to grow shares one new backing array (Go leaves the growth
+			// policy to the implementation; one merged array keeps the number of alternatives linear
+			// in the number of appends instead of doubling it)
+			grows = append(grows, growAlt{al: al, gg: And(al.g, Not(fits)), wg: And(ag, Not(fits))})
+		}
+		if inPlace != nil {
+			ip := inPlace.(SliceV)
+			for _, a := range ip.alts {
+				a.g = And(al.g, fits)
+				if a.g != False {
+					out.alts = append(out.alts, a)
 				}
 			}
-			obj.val = arr
-			for j := 0; j < maxAdd; j++ {
-				jt := BV(IntW, uint64(j))
-				wg := And(ag, Not(fits), Cmp("bvult", jt, addN))
-				if prune(wg) == False {
+		}
+	}
+	if len(grows) > 0 {
+		nc := 4
+		abstract := false
+		for i := range grows {
+			ga := &grows[i]
+			if ga.al.obj != nil {
+				ga.oldMax = fr.lenBoundAlt(ga.al)
+				if isAbstract(ga.al.obj) {
+					abstract = true
+				}
+			}
+			if ga.oldMax+maxAdd > nc {
+				nc = ga.oldMax + maxAdd
+			}
+			if 2*ga.oldMax > nc {
+				nc = 2 * ga.oldMax
+			}
+		}
+		obj := fr.newArray(et, nc)
+		arr := obj.val.(ArrayV)
+		var oldLn, anyG, anyW *Term
+		for i, ga := range grows {
+			for j := 0; j < ga.oldMax && !abstract; j++ {
+				v := fr.readPath(ga.al.obj.val, []PathElem{{idx: BinBV("bvadd", ga.al.off, BV(IntW, uint64(j)))}}, False, pos)
+				if v == nil {
 					continue
 				}
-				if v := elems(j); v != nil {
-					obj.val = fr.writePath(obj.val, []PathElem{{idx: BinBV("bvadd", al.ln, jt)}}, v, wg, pos)
+				if len(grows) == 1 {
+					arr.e[j] = v
+				} else {
+					arr.e[j] = iteVal(ga.gg, v, arr.e[j])
 				}
 			}
-			grown = SliceV{alts: []SliceAlt{{g: True, obj: obj, off: BV(IntW, 0), ln: newLen, cap: BV(IntW, uint64(nc))}}}
+			if i == 0 {
+				oldLn, anyG, anyW = ga.al.ln, ga.gg, ga.wg
+			} else {
+				oldLn = Ite(ga.gg, ga.al.ln, oldLn)
+				anyG = Or(anyG, ga.gg)
+				anyW = Or(anyW, ga.wg)
+			}
 		}
-		switch {
-		case inPlace != nil && grown != nil:
-			r = iteVal(fits, inPlace, grown)
-		case inPlace != nil:
-			r = inPlace
-		default:
-			r = grown
+		obj.val = arr
+		for j := 0; j < maxAdd; j++ {
+			jt := BV(IntW, uint64(j))
+			wg := And(anyW, Cmp("bvult", jt, addN))
+			if prune(wg) == False {
+				continue
+			}
+			if v := elems(j); v != nil {
+				obj.val = fr.writePath(obj.val, []PathElem{{idx: BinBV("bvadd", oldLn, jt)}}, v, wg, pos)
+			}
 		}
-		if res == nil {
-			res = r
-		} else {
-			res = iteVal(al.g, r, res)
-		}
+		out.alts = append(out.alts, SliceAlt{g: anyG, obj: obj, off: BV(IntW, 0), ln: BinBV("bvadd", oldLn, addN), cap: BV(IntW, uint64(nc))})
 	}
-	if res == nil {
+	if len(out.alts) == 0 {
 		return base
 	}
-	return res
+	return out
+}
+
+// growFeasible: for a slice whose capacity is symbolic (make([]T, 0, n) filled by a loop) the solver is asked
+// whether the append can outgrow it at all; a definite "no" saves the alternative with a fresh backing array
+// (dead-work pruning only, as at loop headers). Budget: 30 s of solver time per execution.
+func (fr *frame) growFeasible(al SliceAlt, g *Term) bool {
+	e := fr.e
+	if al.obj == nil || al.cap.konst || e.growFeasSecs > 30 {
+		return true
+	}
+	t0 := time.Now()
+	before := e.feasSecs
+	ok := e.feasibleSMT(g)
+	e.growFeasSecs += time.Since(t0).Seconds()
+	e.feasSecs = before // not charged to the loop-header budget
+	return ok
+}
+
+type growAlt struct {
+	al     SliceAlt
+	gg, wg *Term
+	oldMax int
 }
 
 func (fr *frame) lenBoundAlt(al SliceAlt) int {
